@@ -435,7 +435,7 @@ impl Check for C06 {
             SPECIALS.len()
         ));
         // (2) random compositions
-        let cases = ctx.tier.pick(1_500, 30_000);
+        let cases = ctx.tier.pick(6_000, 60_000);
         crate::prop::run(
             ctx,
             "compose",
